@@ -1,39 +1,61 @@
 //@ append: src/rtps/message.rs
 
-// C06 item 5 — parser robustness, BOUNDED: `Message::read_from_buffer(bytes)` on a fully symbolic
-// datagram of any length ≤ N never panics (no failing unwrap/expect/assert, no arithmetic overflow,
-// no out-of-bounds index or slice, no invalid pointer use) — whatever the result (Ok or Err).
-// Nothing is asserted about the result.  `alloc::fmt::format` (text of error messages) is stubbed.
-// The buffer is a `Bytes` over static storage (the cheapest `Bytes` representation; the parser
-// only uses the representation-independent API: len/slice/split_to/split_off/clone/deref).
+// C06 item 5 — parser robustness with Kani.
+//
+// (a) REACHED, complete per reader: every fixed-layout reader the datagram parser dispatches to,
+//     on EVERY prefix (length 0..=N, N ≥ wire size + 4) of a fully symbolic buffer, in both byte
+//     orders, never panics (no failing unwrap/assert, no overflow, no out-of-bounds / invalid
+//     pointer use) whatever it returns.  Nothing is asserted about the result except that a
+//     buffer of at least the wire size is accepted and a shorter one is rejected.
+// (b) NOT REACHED (kept below, not listed in obligations): `Message::read_from_buffer` on a fully
+//     symbolic datagram.  CBMC explores every arm of `Submessage::read_from_buffer` for every
+//     unwinding of the message loop (the submessage kind read through `Bytes` is not constant-
+//     propagated), and the INFO_REPLY arm alone (speedy `read_vec::<Locator>`, allocation of
+//     symbolic size) exceeds 8 GB / 5 min on a 32-byte buffer with unwind 4.  Kani 0.68 cannot stub
+//     methods of the lifetime-generic trait `speedy::Readable<'a, C>`, so the arm cannot be cut out.
 #[cfg(kani)]
 pub(crate) mod verif_c06_parser {
+  use speedy::Readable;
+
   use super::*;
+  use crate::messages::submessages::info_source::InfoSource;
 
   pub fn stub_format(_a: core::fmt::Arguments<'_>) -> String { String::new() }
+  fn any_endianness() -> Endianness { if kani::any() { Endianness::LittleEndian } else { Endianness::BigEndian } }
 
-  /// every datagram of length ≤ N, every byte symbolic
+  /// reader T on every prefix of a symbolic N-byte buffer; WIRE = fixed wire size of T
+  fn reader_nopanic<T, const N: usize, const WIRE: usize>()
+  where T: for<'a> Readable<'a, Endianness> {
+    let a: [u8; N] = kani::any();
+    let n: usize = kani::any();
+    kani::assume(n <= N);
+    let r = T::read_from_buffer_with_ctx(any_endianness(), &a[..n]);
+    assert!(r.is_ok() == (n >= WIRE), "accepted iff the buffer holds the fixed layout");
+  }
+
+  #[kani::proof] #[kani::unwind(26)] #[kani::stub(alloc::fmt::format, stub_format)]
+  fn c06_reader_nopanic_msgheader() { reader_nopanic::<Header, 24, 20>(); }
+  #[kani::proof] #[kani::unwind(10)] #[kani::stub(alloc::fmt::format, stub_format)]
+  fn c06_reader_nopanic_subheader() { reader_nopanic::<SubmessageHeader, 8, 4>(); }
+  #[kani::proof] #[kani::unwind(34)] #[kani::stub(alloc::fmt::format, stub_format)]
+  fn c06_reader_nopanic_heartbeat() { reader_nopanic::<Heartbeat, 32, 28>(); }
+  #[kani::proof] #[kani::unwind(30)] #[kani::stub(alloc::fmt::format, stub_format)]
+  fn c06_reader_nopanic_hbfrag() { reader_nopanic::<HeartbeatFrag, 28, 24>(); }
+  #[kani::proof] #[kani::unwind(18)] #[kani::stub(alloc::fmt::format, stub_format)]
+  fn c06_reader_nopanic_infodst() { reader_nopanic::<InfoDestination, 16, 12>(); }
+  #[kani::proof] #[kani::unwind(26)] #[kani::stub(alloc::fmt::format, stub_format)]
+  fn c06_reader_nopanic_infosrc() { reader_nopanic::<InfoSource, 24, 20>(); }
+  #[kani::proof] #[kani::unwind(14)] #[kani::stub(alloc::fmt::format, stub_format)]
+  fn c06_reader_nopanic_infots() { reader_nopanic::<Timestamp, 12, 8>(); }
+
+  // ---- (b) not reached: whole-datagram harness, kept for the record --------------------------
+  /// every datagram of length ≤ N, every byte symbolic, over static storage
   pub fn any_datagram<const N: usize>() -> Bytes {
     let storage: &'static mut [u8; N] = Box::leak(Box::new(kani::any::<[u8; N]>()));
     let len: usize = kani::any();
     kani::assume(len <= N);
     Bytes::from_static(&storage[..]).slice(0..len)
   }
-
-  fn parse_any<const N: usize>() {
-    let b = any_datagram::<N>();
-    let r = Message::read_from_buffer(&b);
-    // vacuity guards: both outcomes are reachable
-    kani::cover!(r.is_ok(), "some datagram parses");
-    kani::cover!(r.is_err(), "some datagram is rejected");
-  }
-
   #[kani::proof] #[kani::unwind(26)] #[kani::stub(alloc::fmt::format, stub_format)]
-  fn c06_parser_nopanic_24() { parse_any::<24>() }
-  #[kani::proof] #[kani::unwind(34)] #[kani::stub(alloc::fmt::format, stub_format)]
-  fn c06_parser_nopanic_32() { parse_any::<32>() }
-  #[kani::proof] #[kani::unwind(50)] #[kani::stub(alloc::fmt::format, stub_format)]
-  fn c06_parser_nopanic_48() { parse_any::<48>() }
-  #[kani::proof] #[kani::unwind(66)] #[kani::stub(alloc::fmt::format, stub_format)]
-  fn c06_parser_nopanic_64() { parse_any::<64>() }
+  fn c06_parser_nopanic_24() { let _ = Message::read_from_buffer(&any_datagram::<24>()); }
 }
